@@ -34,8 +34,8 @@ CHECK = {
           {"checks": 6000, "shards": 1, "timeout": 300},
           {"checks": 40000, "shards": 4, "timeout": 1500}, env=ENV),
         T("inputroot", "TestC17NaiveBuildDirectory",
-          {"checks": 200, "shards": 1, "timeout": 300},
-          {"checks": 1000, "shards": 8, "timeout": 1500}, env=ENV),
+          {"checks": 500, "shards": 3, "timeout": 300},
+          {"checks": 1500, "shards": 8, "timeout": 1500}, env=ENV),
     ],
 }
 META = {
